@@ -7,6 +7,7 @@ CHECK = {
     "packages": ["./internal/cluster"],
     "harness": ["internal/cluster/zz_verif_c34.go"],
     "entries": [
+        {"fn": P + "vC34_history2", "tiers": ("quick",)},
         {"fn": P + "vC34_history4", "tiers": ("quick",)},
         {"fn": P + "vC34_progress4", "tiers": ("quick",), "opts": {"substitute": NODROP}},
     ],
